@@ -1,0 +1,33 @@
+//go:build verif
+// +build verif
+
+package service
+
+import (
+	"com.tuntun.rangers/node/src/common"
+	"com.tuntun.rangers/node/src/middleware/db"
+	lru "github.com/hashicorp/golang-lru"
+)
+
+// Verification hook (C17): build a TxPool exactly as newTransactionPool does, but over a
+// caller-supplied executed-store and pending-list limit, so that a harness can run many
+// independent pools in one process and observe the store the pool talks to.
+// Requires InitService() to have been called (loggers).
+func VerifNewTxPool(executed db.Database, limit int) *TxPool {
+	pool := &TxPool{}
+	pool.received = newSimpleContainer(limit)
+	pool.evictedTxs, _ = lru.New(txCacheSize)
+	pool.executed = executed
+	pool.batch = pool.executed.NewBatch()
+	return pool
+}
+
+// VerifIsEvicted reports whether the hash is in the pool's evicted-hash cache.
+func (pool *TxPool) VerifIsEvicted(hash common.Hash) bool {
+	return pool.evictedTxs.Contains(hash)
+}
+
+// VerifLimits returns the compile-time pool constants the model is instantiated with.
+func VerifLimits() (perBlock int, poolSize int) {
+	return txCountPerBlock, rcvTxPoolSize
+}
